@@ -29,6 +29,10 @@ fn lookup(id: &str) -> Option<(RunFn, ReplayFn)>
     {
         "C01" => Some((props::c01::run, props::c01::replay)),
         "C02" => Some((props::c02::run, props::c02::replay)),
+        "C03" => Some((props::schedp::run_c03, props::schedp::replay_c03)),
+        "C04" => Some((props::schedp::run_c04, props::schedp::replay_c04)),
+        "C05" => Some((props::schedp::run_c05, props::schedp::replay_c05)),
+        "C06" => Some((props::schedp::run_c06, props::schedp::replay_c06)),
         "C07" => Some((props::audits::run_c07, props::audits::replay_c07)),
         "C08" => Some((props::audits::run_c08, props::audits::replay_c08)),
         "C09" => Some((props::audits::run_c09, props::audits::replay_c09)),
@@ -42,11 +46,49 @@ fn lookup(id: &str) -> Option<(RunFn, ReplayFn)>
     }
 }
 
+fn bench() -> i32
+{
+    use proptest::strategy::{Strategy, ValueTree};
+    use proptest::test_runner::TestRunner;
+    let mut runner = TestRunner::deterministic();
+    let strat = props::schedp::strategy(props::schedp::Which::C05, 7, 0);
+    let mut total_runs = 0u64;
+    let t0 = Instant::now();
+    let mut t_prepare = 0f64;
+    let mut t_fork = 0f64;
+    let mut t_invoke = 0f64;
+    for _ in 0..40
+    {
+        let c = strat.new_tree(&mut runner).unwrap().current();
+        let a = Instant::now();
+        let p = match props::schedp::prepare(&c) { Ok(p) => p, Err(_) => continue };
+        t_prepare += a.elapsed().as_secs_f64();
+        for k in 0..50u64
+        {
+            let a = Instant::now();
+            let mut w = p.world.fork();
+            t_fork += a.elapsed().as_secs_f64();
+            let a = Instant::now();
+            let s = if k % 2 == 0 { gen::Sched::Serial { highest: false } } else { gen::Sched::Random { seed: k, switch_num: 8 } };
+            let obs = w.invoke(p.inv.clone(), &s, None);
+            t_invoke += a.elapsed().as_secs_f64();
+            total_runs += 1;
+            std::hint::black_box(obs.steps);
+        }
+    }
+    println!("runs {} total {:.3}s prepare {:.3}s fork {:.3}s invoke {:.3}s => {:.3} ms/run", total_runs, t0.elapsed().as_secs_f64(), t_prepare, t_fork, t_invoke, 1000.0 * t_invoke / total_runs as f64);
+    0
+}
+
 fn verif_main(args: &[String]) -> i32
 {
     if args.is_empty()
     {
         return usage();
+    }
+    if args[0] == "bench"
+    {
+        return bench();
     }
     let id = args[0].clone();
     let mut tier = match std::env::var("VERIF_TIER").ok().as_deref()
